@@ -37,7 +37,7 @@ def build_decl(spec):
     """IR of a spec"""
     if 'P' in spec:
         return spec['P']
-    P = alphabet.make_decl(spec['names'], spec.get('opts'), spec.get('wrapper', 'a'))
+    P = alphabet.make_decl(spec['names'], spec.get('opts'), spec.get('wrapper', 'a'), wopts=spec.get('wopts'))
     if spec.get('shared') is not None:
         # every class of the module uses the very same options dict object
         import copy
